@@ -112,6 +112,54 @@ fn run_zst_big(ctx: &mut Ctx) {
     }
 }
 
+/// Every constructor on shapes of () with close to usize::MAX cells: a product that fits must be accepted (also beyond
+/// isize::MAX cells: only zero-sized elements get there), over an exact and over a longer buffer.
+fn run_zst_huge(ctx: &mut Ctx) {
+    for (c, r) in super::hugezst::shapes() {
+        let n = c * r;
+        for ctor in ["new", "init", "from_vec", "from_box", "TooDeeView::new", "TooDeeViewMut::new", "TooDeeView::new (longer slice)", "TooDeeViewMut::new (longer slice)"] {
+            ctx.case(
+                || format!("{} of a {}x{} shape of ()", ctor, c, r),
+                |cs| {
+                    cs.nontrivial((ctor, c, r));
+                    cs.outcome("constructed");
+                    let longer = if n < usize::MAX { usize::MAX } else { n };
+                    let res: Result<((usize, usize), usize), String> = guarded(|| match ctor {
+                        "new" => {
+                            let t = TooDee::<()>::new(c, r);
+                            (t.size(), t.data().len())
+                        }
+                        "init" => {
+                            let t = TooDee::<()>::init(c, r, ());
+                            (t.size(), t.data().len())
+                        }
+                        "from_vec" => {
+                            let t = TooDee::from_vec(c, r, vec![(); n]);
+                            (t.size(), t.data().len())
+                        }
+                        "from_box" => {
+                            let t = TooDee::from_box(c, r, vec![(); n].into_boxed_slice());
+                            (t.size(), t.data().len())
+                        }
+                        "TooDeeView::new" => (TooDeeView::new(c, r, &vec![(); n]).size(), n),
+                        "TooDeeViewMut::new" => (toodee::TooDeeViewMut::new(c, r, &mut vec![(); n]).size(), n),
+                        "TooDeeView::new (longer slice)" => (TooDeeView::new(c, r, &vec![(); longer]).size(), n),
+                        _ => (toodee::TooDeeViewMut::new(c, r, &mut vec![(); longer]).size(), n),
+                    });
+                    match res {
+                        Ok((size, len)) => {
+                            if size != (c, r) || len != n {
+                                cs.fail("ctor:wrong-contents", format!("size {:?} with {} cells, expected ({},{}) with {}", size, len, c, r, n));
+                            }
+                        }
+                        Err(m) => cs.fail("ctor:panics-on-valid", format!("{} of the valid shape ({},{}) panicked: {}", ctor, c, r, m)),
+                    }
+                },
+            );
+        }
+    }
+}
+
 fn run_from_vec<E: Elem>(n: usize, c: usize, ctx: &mut Ctx) {
     let dims = dim_set(n);
     for &r in &dims {
@@ -389,9 +437,32 @@ fn run_conversions<E: Elem>(c: usize, r: usize, ctx: &mut Ctx) {
                         cs.fail("conv:from-view", format!("{} gives size {:?} cells {:?}; expected ({},{}) {:?}", name, x.size(), lab(x.data()), wc, wr, exp));
                     }
                 }
+                // windows of the window, through every pairing of view / view_mut (expected cells read off the labels)
+                let mut nested: Vec<TooDee<E>> = Vec::new();
+                if wc >= 2 && wr >= 2 {
+                    for (s2, e2) in [((1usize, 0usize), (wc, wr - 1)), ((0, 1), (wc - 1, wr)), ((1, 1), (wc, wr)), ((0, 1), (wc, wr))] {
+                        let (w, h) = (e2.0 - s2.0, e2.1 - s2.1);
+                        let mut exp2: Vec<u32> = Vec::new();
+                        for y in 0..h {
+                            for x in 0..w {
+                                exp2.push(labels[(s.1 + s2.1 + y) * c + s.0 + s2.0 + x]);
+                            }
+                        }
+                        let n1: TooDee<E> = TooDee::from(t.view(s, e).view(s2, e2));
+                        let n2: TooDee<E> = TooDee::from(t.view_mut(s, e).view(s2, e2));
+                        let n3: TooDee<E> = TooDee::from(t.view_mut(s, e).view_mut(s2, e2));
+                        for (name, x) in [("From<view of a view>", &n1), ("From<view of a view_mut>", &n2), ("From<view_mut of a view_mut>", &n3)] {
+                            if x.size() != (w, h) || (!E::ZST && lab(x.data()) != exp2) || x.data().len() != w * h || x.data().iter().any(|e| !e.sane()) {
+                                cs.fail("conv:from-view", format!("{} {:?}-{:?} of the window gives size {:?} cells {:?}; expected ({},{}) {:?}", name, s2, e2, x.size(), lab(x.data()), w, h, exp2));
+                            }
+                        }
+                        nested.extend([n1, n2, n3]);
+                    }
+                }
                 if lab(t.data()) != labels {
                     cs.fail("conv:from-view", "the source changed".into());
                 }
+                drop(nested);
                 drop((a, b, c2, t));
                 if E::TRACKED && !E::ZST {
                     ledger_balanced(cs, "after From<view>");
@@ -522,7 +593,7 @@ impl Prop for C20P {
     }
     fn units(&self, tier: Tier) -> Vec<String> {
         let n = n_for(tier);
-        let mut v = vec!["newinit U".to_string(), "newinit T".into(), "newinit Z".into(), "zstbig".into(), "eqhash".into()];
+        let mut v = vec!["newinit U".to_string(), "newinit T".into(), "newinit Z".into(), "zstbig".into(), "zsthuge".into(), "eqhash".into()];
         for c in dim_set(n) {
             v.push(format!("fromvec U {}", c));
             v.push(format!("fromvec T {}", c));
@@ -554,6 +625,7 @@ impl Prop for C20P {
                 run_survivors(c.parse().unwrap(), r.parse().unwrap(), ctx)
             }
             "zstbig" => run_zst_big(ctx),
+            "zsthuge" => run_zst_huge(ctx),
             "eqhash" => run_eq_hash(ctx),
             "fromvec" => {
                 let c: usize = p[2].parse().unwrap();
@@ -580,7 +652,7 @@ impl Prop for C20P {
          from_vec (exact / spare capacity) and from_box for all pairs x every buffer length 0..=N^2+1: accepted iff zero rule, no overflow and c*r == len, then the buffer's cells in row-major order; TooDeeView::new / TooDeeViewMut::new: accepted iff zero rule, no overflow, c*r <= len, cells by address; default / with_capacity => (0,0). \
          Conversions for every shape: Vec::from, Box::from, into_iter() with every (front, back) split and the rest through rev / nth / nth_back / rev+skip / skip+step_by / rev+step_by, AsRef<[T]>, AsRef<Vec<T>>, AsMut, clone() and clone_from() equal and independent, TooDee::from(view | view_mut | view-from-view_mut) for every window; drop ledger balanced. \
          == / Hash: all arrays with <= 4 cells over {0,1} (1x4, 2x2, 4x1 share a length), all pairs: equal iff same dimensions and cells, equal => same DefaultHasher digest also across capacities. \
-         Arrays over {0.0, NaN}: equal exactly when dimensions agree and cells are pairwise equal, also when both operands are the same object. Owned arrays of owning elements (up to 3x3) that survive an operation in which the k-th call into caller code panicked and was caught (every operation instance and every k): clone() equal, Vec::from / into_iter() yield num_cols*num_rows cells in row-major order. \
+         Every constructor (new, init, from_vec, from_box, TooDeeView::new, TooDeeViewMut::new over an exact and over a longer buffer) on shapes of () with close to usize::MAX cells must accept them. From<view> also for windows of windows (view of view, view of view_mut, view_mut of view_mut). Arrays over {0.0, NaN}: equal exactly when dimensions agree and cells are pairwise equal, also when both operands are the same object. Owned arrays of owning elements (up to 3x3) that survive an operation in which the k-th call into caller code panicked and was caught (every operation instance and every k): clone() equal, Vec::from / into_iter() yield num_cols*num_rows cells in row-major order. \
          A case is one constructor call / conversion bundle / comparison row; non-trivial = accepted; distinct by arguments."
             .into()
     }
